@@ -11,6 +11,7 @@ core/timex/ticker.go (what the extractor reads from them now = what Clients.lean
 -/
 import GoZero.Extracted.C12
 import GoZero.C12.Clients
+import GoZero.C12.Deliver
 namespace GoZero.C12.TieClients
 open GoZero.C12
 open GoZero.Extracted.C12
@@ -172,5 +173,44 @@ theorem tie_tasksOwned :
     ∧ drainTasksDecl =
       ["var tasks []timingTask", "tasks = append(tasks, timingTask{ key: task.key, value: task.value, })",
        "task := tasks[i]"] := by decide
+
+/-! ### round 5c: where the recovery sits (typed nesting, read off the AST) -/
+
+/-- does the construct recover a panic of what it encloses? (GoSafe / RunSafe: `defer rescue.Recover()`;
+TaskRunner.Schedule: its goroutine defers rescue.Recover) -/
+def Nest.recovers : Nest → Bool
+  | .goSafe | .runSafe | .schedule => true
+  | _ => false
+
+/-- does the construct start a goroutine for what it encloses? -/
+def Nest.spawns : Nest → Bool
+  | .go | .goSafe | .schedule => true
+  | _ => false
+
+/-- the recover scope of a delivery, from the constructs around the callback's call (outermost first): a
+recovering construct INSIDE the loop → per task; only outside → around the loop; none → no recovery at all. -/
+def scopeOf (path : List Nest) : Option Scope :=
+  if ((path.dropWhile (· ≠ .loop)).drop 1).any Nest.recovers then some .perTask
+  else if (path.takeWhile (· ≠ .loop)).any Nest.recovers then some .aroundLoop
+  else none
+
+/-- a goroutine per task (inside the loop): then even Goexit ends only that task's goroutine. -/
+def goroutinePerTask (path : List Nest) : Bool := ((path.dropWhile (· ≠ .loop)).drop 1).any Nest.spawns
+
+/-- runTasks: ONE goroutine per tick, the loop inside it, the recovery inside the loop — the `Scope.perTask` of
+Deliver.lean (`panicking_callback_affects_no_other_timer`), and no goroutine per task (`goexit_loses_the_rest_of_its_tick`
+is the behaviour of the code).  Seeded C12-9 gives `[.goSafe, .loop]`: `some .aroundLoop`. -/
+theorem tie_runTasksScope :
+    runTasksNest = [.go, .loop, .runSafe] ∧ scopeOf runTasksNest = some .perTask
+    ∧ goroutinePerTask runTasksNest = false := by decide
+
+/-- drainAll's delivery: one goroutine hands out, and every task gets a goroutine of its own that recovers
+(TaskRunner.Schedule): neither a panic nor Goexit in a Drain callback touches another task. -/
+theorem tie_drainScope :
+    drainNest = [.go, .loop, .schedule] ∧ scopeOf drainNest = some .perTask ∧ goroutinePerTask drainNest = true := by decide
+
+/-- MoveTimer below one interval: the callback runs on a recovering goroutine of its own, outside any loop. -/
+theorem tie_moveImmediateScope :
+    moveImmediateNest = [.goSafe] ∧ (moveImmediateNest.any Nest.recovers ∧ moveImmediateNest.any Nest.spawns) = true := by decide
 
 end GoZero.C12.TieClients
